@@ -1,8 +1,9 @@
 import CalicoVerif.Util.Proto
 import CalicoVerif.Model.C12
-/-! Driver for C12.  Op: `chk p=<proto> t=<tiers> f=<profiles>` → `alp=<v> bpf=<v> ipt=<v>`
+/-! Driver for C12.  Op: `chk p=<proto> [s=<hex8> d=<hex8>] t=<tiers> f=<profiles>` → `alp=<v> bpf=<v> ipt=<v>`
 (tiers `|`-separated `<D|P>:<policy>/<policy>`; policy (`~` prefix = staged) / profile = `,`-separated rules
-`<a|d|p|n|l>.<proto|x>.<notproto|x>`, `_` = no rules, `-` = none). -/
+`<a|d|p|n|l>.<proto|x>.<notproto|x>[.<src>.<notsrc>.<dst>.<notdst>]`, CIDR lists `+`-separated `<hex8>_<len>` or `x`;
+`_` = no rules, `-` = none; default flow 10.0.0.1 → 10.0.0.2). -/
 open CalicoVerif CalicoVerif.C11 CalicoVerif.C12 CalicoVerif.Proto
 
 def parsePr (s : String) : Option (Option Proto) :=
@@ -11,14 +12,44 @@ def parsePr (s : String) : Option (Option Proto) :=
     | some n => some (some (.num n))
     | none => some (some (.name s))
 
+def hexVal (c : Char) : Option Nat :=
+  if '0' ≤ c ∧ c ≤ '9' then some (c.toNat - '0'.toNat)
+  else if 'a' ≤ c ∧ c ≤ 'f' then some (c.toNat - 'a'.toNat + 10) else none
+
+def parseHex (s : String) : Option Nat :=
+  if s.isEmpty then none else s.toList.foldlM (fun acc c => (hexVal c).map (fun v => acc * 16 + v)) 0
+
+def parseNet (s : String) : Option Net :=
+  match s.splitOn "_" with
+  | [a, l] => do
+    let a ← parseHex a
+    let l ← l.toNat?
+    some { v6 := false, addr := a, pfx := l }
+  | _ => none
+
+def parseNets (s : String) : Option (List Net) :=
+  if s == "x" then some [] else (s.splitOn "+").mapM parseNet
+
+def parseAct (a : String) : Option String :=
+  if a == "a" then some "allow" else if a == "d" then some "deny" else if a == "p" then some "pass"
+  else if a == "n" then some "next-tier" else if a == "l" then some "log" else none
+
 def parseRule (s : String) : Option Rule :=
   match s.splitOn "." with
   | [a, pr, np] => do
-    let act ← (if a == "a" then some "allow" else if a == "d" then some "deny" else if a == "p" then some "pass"
-      else if a == "n" then some "next-tier" else if a == "l" then some "log" else none)
+    let act ← parseAct a
     let pr ← parsePr pr
     let np ← parsePr np
     some { action := act, protocol := pr, notProtocol := np }
+  | [a, pr, np, sn, nsn, dn, ndn] => do
+    let act ← parseAct a
+    let pr ← parsePr pr
+    let np ← parsePr np
+    let sn ← parseNets sn
+    let nsn ← parseNets nsn
+    let dn ← parseNets dn
+    let ndn ← parseNets ndn
+    some { action := act, protocol := pr, notProtocol := np, srcNet := sn, notSrcNet := nsn, dstNet := dn, notDstNet := ndn }
   | _ => none
 
 def parseRules (s : String) : Option Policy :=
@@ -38,24 +69,30 @@ def parseTier (s : String) : Option Tier :=
 def showV : Verdict → String
   | .allow => "allow" | .deny => "deny" | .xdpPass => "xdp_pass"
 
-def step (_ : Unit) (line : String) : Unit × String :=
-  match words line with
-  | ["chk", p, t, f] =>
-    match ((p.drop 2).toString.toNat?), (t.drop 2).toString, (f.drop 2).toString with
-    | some n, ts, fs =>
+def evalChk (p sa da t f : String) : String :=
+    match ((p.drop 2).toString.toNat?), parseHex sa, parseHex da, (t.drop 2).toString, (f.drop 2).toString with
+    | some n, some src, some dst, ts, fs =>
       let tiers := if ts == "-" then some [] else (ts.splitOn "|").mapM parseTier
       let profs := if fs == "-" then some [] else (fs.splitOn "|").mapM parseRules
       match tiers, profs with
       | some tiers, some profs =>
         let r : Rules := { tiers := tiers, profiles := profs, suppressNormalHostPolicy := true }
         let env : Env := { c := {} }
-        let pk : Pkt := { src := [0, 0, 0, 0], preDst := [0, 0, 0, 0], postDst := [0, 0, 0, 0], sport := 0, icmpW := 0,
+        -- the state holds addresses in network byte order: the words as loaded are byte-swapped
+        let sw := rev32bv (BitVec.ofNat 32 src)
+        let dw := rev32bv (BitVec.ofNat 32 dst)
+        let pk : Pkt := { src := [sw, 0, 0, 0], preDst := [dw, 0, 0, 0], postDst := [dw, 0, 0, 0], sport := 0, icmpW := 0,
                           preDport := 0, postDport := 0, proto := BitVec.ofNat 8 n, flags := 0 }
-        let alp := match checkTiers (n : Int) profs tiers with
+        let alp := match checkTiersN (n : Int) src dst profs tiers with
           | some true => "allow" | some false => "deny" | none => "invalid"
-        ((), s!"alp={alp} bpf={showV (bpfVerdict env r pk)} ipt={showV (iptVerdict env r pk)}")
-      | _, _ => ((), "bad-op")
-    | _, _, _ => ((), "bad-op")
+        s!"alp={alp} bpf={showV (bpfVerdict env r pk)} ipt={showV (iptVerdict env r pk)}"
+      | _, _ => "bad-op"
+    | _, _, _, _, _ => "bad-op"
+
+def step (_ : Unit) (line : String) : Unit × String :=
+  match words line with
+  | ["chk", p, t, f] => ((), evalChk p "0a000001" "0a000002" t f)
+  | ["chk", p, s, d, t, f] => ((), evalChk p (s.drop 2).toString (d.drop 2).toString t f)
   | _ => ((), "bad-op")
 
 def main : IO Unit := run step ()
